@@ -91,6 +91,7 @@ func runC04(p *eng.Prog, r *eng.Report, tier string) {
 	c04CtxBetweenSteps(c, "C04.10")
 	c04WrappersDoNotRetry(c, "C04.11")
 	deadlineWatchersArmedAtOnce(c, "C04.12")
+	c04ExpiredDeadlineIsInThePast(c, "C04.4")
 	c04NoPanic(c, neg)
 	// a fault that panics is not "failing closed": decoder API misuse that
 	// panics on a peer's stream error (C04.6)
@@ -778,4 +779,76 @@ func deadlineWatchersArmedAtOnce(c *cx, id string) {
 		}
 	}
 	c.r.Floor(id, "uses of the deadline watchers", n, 4)
+}
+
+// c04ExpiredDeadlineIsInThePast (C04.4): the watchers interrupt blocked I/O by
+// setting a deadline that has passed. The value they pass to Set*Deadline on
+// the ctx.Done() arm is a package-level time initialised with a non-zero time
+// (time.Unix with a positive constant): the zero Time means "no deadline" to
+// net.Conn, so it would clear the deadline instead of expiring it.
+func c04ExpiredDeadlineIsInThePast(c *cx, id string) {
+	n := 0
+	for _, name := range []string{"setDeadline", "setWriteDeadline"} {
+		sd := c.fn(id, "", name)
+		if sd == nil {
+			continue
+		}
+		for _, l := range sd.Lits {
+			lg := l.Graph()
+			for _, cl := range l.Calls("net.Conn.Set*Deadline") {
+				pt, _ := lg.Where(cl)
+				if len(cl.Args) != 1 {
+					continue
+				}
+				arg := ast.Unparen(cl.Args[0])
+				// time.Time{} clears the deadline again after the operation: fine
+				if lit, isLit := arg.(*ast.CompositeLit); isLit && len(lit.Elts) == 0 {
+					continue
+				}
+				n++
+				ok, why := false, "argument is "+l.Norm(arg, &pt)
+				if idn, isId := arg.(*ast.Ident); isId {
+					if v, isVar := l.Info().Uses[idn].(*types.Var); isVar && !eng.IsLocal(v) {
+						// find the initialiser of the package-level variable
+						for _, file := range l.Pkg.Syntax {
+							for _, decl := range file.Decls {
+								gd, isGen := decl.(*ast.GenDecl)
+								if !isGen {
+									continue
+								}
+								for _, spec := range gd.Specs {
+									vs, isVS := spec.(*ast.ValueSpec)
+									if !isVS {
+										continue
+									}
+									for i, nm := range vs.Names {
+										if l.Info().Defs[nm] != types.Object(v) {
+											continue
+										}
+										if i >= len(vs.Values) {
+											why = v.Name() + " has no initialiser: it is the zero Time, which net.Conn takes for \"no deadline\""
+											continue
+										}
+										if call, isCall := ast.Unparen(vs.Values[i]).(*ast.CallExpr); isCall && l.CalleeID(call) == "time.Unix" && len(call.Args) == 2 {
+											sec, ok1 := l.ConstInt(call.Args[0])
+											nsec, ok2 := l.ConstInt(call.Args[1])
+											if ok1 && ok2 && (sec > 0 || (sec == 0 && nsec > 0)) {
+												ok = true
+											} else {
+												why = v.Name() + " is not after the zero Unix time"
+											}
+										} else {
+											why = v.Name() + " is initialised with " + types.ExprString(vs.Values[i])
+										}
+									}
+								}
+							}
+						}
+					}
+				}
+				c.r.Check(id, l, "deadline that expires blocked I/O", "K: the deadline set on cancellation is a fixed non-zero time in the past", cl.Pos(), ok, why)
+			}
+		}
+	}
+	c.r.Floor(id, "expiring deadline calls in the watchers", n, 2)
 }
